@@ -197,6 +197,8 @@ func (s *System) stop(checkLog bool, timeout ...time.Duration) error {
 			break
 		case <-time.After(stopTimeout):
 			s.Logger().Error("actor system stop failed", log.Duration("timeout", stopTimeout))
+			// 系统已进入 stop 状态，无法再次停止：调度器不依赖各 Actor 的终止结果，超时返回前同样需要释放其协程
+			s.scheduler.Stop()
 			return vivid.ErrorActorSystemStopFailed.With(context.DeadlineExceeded)
 		}
 	}
